@@ -40,6 +40,13 @@ def universes_c09():
         E("pa2", "A", 30000, 40, [["d", "a"]]), E("pab0", "A", 30000, 5, [["d", "ab"]]), E("pb", "B", 30000, 1, [["d", "a"]]),
         E("pk", "A", 30001, 1, [["d", "a"]]),
     ]
+    # several addresses of one author and kind written in the same second (ids in both byte orders), with older and newer
+    # versions of one of them: the writer walks author+kind newest first and meets the neighbours before the versions
+    us["dtie"] = [
+        E("ta", "A", 30000, 20, [["d", "a"]]), E("tb", "A", 30000, 20, [["d", "b"]]), E("tc", "A", 30000, 20, [["d", "c"]], id_prefix="ff"),
+        E("t0", "A", 30000, 20, [["d", "z"]], id_prefix="00"), E("ta0", "A", 30000, 10, [["d", "a"]]), E("ta9", "A", 30000, 30, [["d", "a"]]),
+        E("tn", "A", 30000, 20),
+    ]
     us["dempty"] = [
         E("q0", "A", 30000, 10), E("qb", "A", 30000, 20, [["d"]]), E("qe", "A", 30000, 30, [["d", ""]]),
         E("qa", "A", 30000, 15, [["d", "a"]]), E("q1", "A", 30000, 40), E("qa2", "A", 30000, 35, [["d", "a"]]),
@@ -119,6 +126,7 @@ def universes_c06():
         E("a10", "A", 30000, 10, [["d", "a"]]), E("a20", "A", 30000, 20, [["d", "a"]]), E("b05", "A", 30000, 5, [["d", "b"]]),
         E("b30", "A", 30000, 30, [["d", "b"]]), E("e15", "A", 30000, 15), E("o12", "B", 30000, 12, [["d", "a"]]),
         E("k12", "A", 30001, 12, [["d", "a"]]), E("r08", "A", 10000, 8), E("r25", "A", 10000, 25), E("s12", "A", 10001, 12),
+        E("c20", "A", 30000, 20, [["d", "c"]], id_prefix="ff"), E("z20", "A", 30000, 20, [["d", "z"]], id_prefix="00"),   # other addresses, same second
     ]
     return us
 
@@ -175,6 +183,15 @@ def _short_delegation(ev, uni):
     _resign(ev, "A")
 
 
+def _two_delegations(first_bad):
+    def m(ev, uni):
+        good = C.delegation_tag("B", "A")
+        bad = ["delegation", C.pubkey("C"), "kind=1", "00" * 64]
+        ev["tags"] = [bad, good] if first_bad else [good, bad]
+        _resign(ev, "A")
+    return m
+
+
 def universes_c03():
     us = {}
     forged = [
@@ -196,6 +213,13 @@ def universes_c03():
         E("f_deleg", "A", 1, 26, mutate=_mut(_bad_delegation)),
         E("f_delegother", "A", 1, 27, mutate=_mut(_transplanted_delegation)),
         E("f_delegshort", "A", 1, 28, mutate=_mut(_short_delegation)),
+        # a genuine delegation tag must not vouch for anything but itself: event signature forged / content changed under
+        # a valid delegation tag; a forged delegation tag before / after a genuine one
+        E("fd_sig", "A", 1, 29, [["delegation", "B"]], mutate=_forge_sig),
+        E("fd_content", "A", 1, 30, [["delegation", "B"]], mutate=_forge_content),
+        E("fd_sigother", "A", 1, 31, [["delegation", "B"]], mutate=_mut(lambda ev, u: ev.__setitem__("sig", C.sign_hex("A", "11" * 32)))),
+        E("fd_badfirst", "A", 1, 32, mutate=_mut(_two_delegations(True))),
+        E("fd_badlast", "A", 1, 33, mutate=_mut(_two_delegations(False))),
     ]
     us["forged"] = forged
     # twins: the same event once authentic and once with a wrong signature (same id).  A relay that remembers what it
